@@ -416,7 +416,7 @@ func (d *DgramConn) Read(b []byte) (int, error) {
 	return n, err
 }
 func (d *DgramConn) Write(b []byte) (int, error) { return d.PacketConn.WriteTo(b, d.Remote) }
-func (d *DgramConn) RemoteAddr() net.Addr         { return d.Remote }
+func (d *DgramConn) RemoteAddr() net.Addr        { return d.Remote }
 
 // Delivered reports how many scripted datagrams have been copied into a
 // caller's buffer.
